@@ -15,7 +15,7 @@ CHEAP = {"C03", "C04", "C13", "C13fan", "C15"}
 RULE = ("for each report (code model C01, the pass histories of C07 (projects that declare one simple class name in several packages and use it without a single-type import), call graph C03, reverse call graph C04, bad smells + `bs -s type` C10, test "
         "smells C11, API list C12, architecture graph C13 and its fan table (SortedByFan, an API-only report), git summaries C15, cloc tables C16, counts / evaluation / "
         "concepts C18 and the service summary of `coca evaluate` (no model: executions compared with each other only), Go and Python front-ends C20) the inputs of that report's own generator; the same operation is "
-        "executed N times (4 quick, 8 thorough; three times as often for the reports computed from a model or a commit list), one case of every family of the report's generator first, each in its own OS process, so that every execution draws fresh "
+        "executed N times (4 quick, 8 thorough; three times as often, on three times as many cases, for the reports computed from a model or a commit list), one case of every family of the report's generator first, each in its own OS process, so that every execution draws fresh "
         "map-iteration seeds; the decider compares the normal forms of the N outputs (collections unordered, promised "
         "orders exact up to ties in the sort key); non-trivial = non-empty output; distinct = distinct input")
 TRUSTED_BASE = ["the reports' models are tied to the code by the checks of their own properties; here each run is "
@@ -46,10 +46,11 @@ def cases(seed, tier):
                 if key not in fams and len(first) < 2 * per:
                     fams.add(key); first.append(c)
             # ... then cases at a regular stride
-            step = max(1, len(batch) // per) if tier == "quick" else 1
+            want = per * 3 if r in CHEAP else per          # the cheap reports are also sampled three times as densely
+            step = max(1, len(batch) // want) if tier == "quick" else 1
             got += [c for c in batch[::step] if not any(c is f for f in first)]
             s += 1000003
-        chosen = first + got[:max(0, per - len(first) // 2)]
+        chosen = first + got[:per * 3 if r in CHEAP else per]
         for c in chosen:
             reps = n * 3 if r in CHEAP else n
             hop = c.get("harness_op", m.HARNESS_OP)
@@ -73,6 +74,9 @@ def agree(c):
     runs = c["impl_out"]
     if not isinstance(runs, list) or not runs or isinstance(runs[0], str):
         return False
+    if hasattr(m, "agree") and c.get("inner") is not None:
+        # the report's own notion of agreement (C16: with --sort the order of the language sections is the user's)
+        return all(m.agree(dict(c["inner"], model_out=c["model_out"], impl_out=r)) for r in runs)
     want = canon(c["model_out"])
     return all(canon(r) == want for r in runs)
 
